@@ -105,6 +105,8 @@ def gen_cases(rng, tier):
         r = rng.random()
         if r < 0.2:
             op = ['pow', C02._opd(rng, u, kx), rng.choice([-2, -1, 2, 3])]
+            if op[2] < 0 and op[1][0] == 'q':
+                op[1][1] = ['dec', rng.choice(['1000/1', '-3000/1', '2000/1'])]
         else:
             op = [rng.choice(['mul', 'div']), C02._opd(rng, u, kx), C02._opd(rng, v, ky)]
         hist = []
@@ -202,11 +204,8 @@ def oracle(case, r):
             return None
         return (f"{case['q']['o']}: value {va} after history {case['hist']} and declarations in "
                 f"script order, but {vb} in a fresh process with another declaration order")
-    # an attempt before the type existed must not stick
-    for h, ob in zip(case['hist'], r['hist']):
-        if h == case['q']['o'] and ob['k'] == 'err' and ob['e'] == 'EUndefinedResult' and case.get('late'):
-            if r['res']['k'] == 'err':
-                return f"{h}: still {r['res']} after the missing type was declared"
+    # (an attempt before the type existed must not stick: C02.oracle above judges the
+    # final result against ALL declarations, so a sticky error is reported there)
     # repeating gives an equal result
     if not case.get('late'):
         for h, ob in zip(case['hist'], r['hist']):
